@@ -54,6 +54,7 @@ export const PROBES = [
 // that told the two behaviours apart; `expect` is TypeScript's verdict, "diagnostic" a refusal.
 const fn0 = () => 1;
 export const TEXT_PROBES = [
+  { id: "utility-over-intersection-with-optionality-flip", text: "type A = { b: string; c?: 1 };\ntype W = { b?: string; c?: 1; d?: 2 };\ntype X = Required<Pick<A & W, \"b\" | \"d\">>;", cases: [[{ b: "s", d: 2 }, "Y"], [{ b: "s" }, "N"], [{ d: 2 }, "N"]] },
   { id: "conditional-inside-a-distributing-conditional", text: 'type U = "a" | "b";\ntype Inner<T> = T extends "a" ? 1 : 2;\ntype Outer<T> = T extends string ? Inner<U> : never;\ntype X = Outer<U>;', cases: [[1, "Y"], [2, "Y"], [3, "N"]] },
   { id: "required-takes-undefined-out", text: "type U = string | undefined;\ntype X = Required<{ a?: string | undefined; b?: number | null; c?: U }>;", cases: [[{ a: "s", b: 1, c: "t" }, "Y"], [{ b: 1, c: "t" }, "N"], [{ a: "s", b: null, c: "t" }, "Y"], [{ a: "s", b: 1 }, "N"], [{ a: null, b: 1, c: "t" }, "N"]] },
   { id: "never-in-template-hole-union", text: 'type T = never | "A" | "b";\ntype X = `${number}$${T}-`;', cases: [["1$A-", "Y"], ["1$c-", "N"]] },
